@@ -163,6 +163,9 @@ protected:
   uint *last;
   uint *A;
 
+  /** Builds the XBW index from len, mapping, alpha, last and A. */
+  void buildIndex();
+
   bool static compare(TrieNode *n1, TrieNode *n2) { return (*n1).cmp(*n2); }
 };
 
